@@ -152,7 +152,7 @@ def _reads(rec):
 KNOWN_DEFAULTS = {
     # keyword -> values that are the documented default of the numpy / scipy / builtin callee it is used with in pyiga
     'endpoint': ('True',), 'copy': ('True',), 'order': ("'C'",), 'indexing': ("'xy'",), 'side': ("'left'",), 'keepdims': ('False',),
-    'reverse': ('False',), 'axis': ('None',), 'kind': ("'quicksort'", 'None'), 'sparse': ('False',), 'check_finite': ('True',),
+    'reverse': ('False',), 'axis': ('None', '0'), 'k': ('0',), 'n': ('1',), 'step': ('1',), 'start': ('0',), 'verbose': ('False', '0'), 'kind': ("'quicksort'", 'None'), 'sparse': ('False',), 'check_finite': ('True',),
     'overwrite_a': ('False',), 'overwrite_b': ('False',), 'lower': ('False',), 'return_index': ('False',), 'return_inverse': ('False',),
     'return_counts': ('False',), 'assume_unique': ('False',), 'exist_ok': ('False',), 'ignore_errors': ('False',), 'out': ('None',),
     'dtype': ('None', 'float', 'np.float64', 'np.double'), 'format': ('None',), 'subok': ('True',), 'ndmin': ('0',),
